@@ -98,6 +98,7 @@ func WriteFileAt(dir *os.File, filename string, data []byte, perm os.FileMode) e
 	verifKillPoint(3, filename)
 	if werr == nil {
 		werr = unix.Renameat(int(dir.Fd()), tmpname, int(dir.Fd()), filename)
+		verifKillPoint(4, filename)
 	}
 	if werr != nil {
 		_ = unix.Unlinkat(int(dir.Fd()), tmpname, 0)
